@@ -1,5 +1,6 @@
 import Driver.Common
 import LiskVerif.Model.TxPool
+import LiskVerif.Model.TxPoolSplit
 
 /-! Line-protocol driver for C14 (transaction pool).  See /verif/harness/c14/c14.go for the op grammar. -/
 
@@ -84,6 +85,112 @@ def finish (d : DSt) (p : Pool) (res : String) : DSt × String :=
   if p.fault then ({ d with pool := p, dead := true }, "panic")
   else ({ d with pool := p }, res ++ " " ++ snapshot p)
 
+/-! ### operations interleaved into a window (`reorgx`, `annx`, `addx`; see harness/c14/interleave.go) -/
+
+/-- splits the words of an op at the `|` separators -/
+def splitBars (w : List String) : List (List String) :=
+  w.foldr (fun x acc =>
+    if x == "|" then [] :: acc
+    else match acc with
+      | g :: r => (x :: g) :: r
+      | [] => [[x]]) [[]]
+
+inductive Inner
+  | ok (st : Pool × List Nat) (res : String)
+  | amb
+  | bad
+
+/-- adds one after the other with the bookkeeping of list identity; `none` = ambiguous eviction -/
+def addManyT (cfg : Cfg) : Pool × List Nat → List AddArg → String → Option ((Pool × List Nat) × String)
+  | st, [], acc => some (st, acc)
+  | st, x :: r, acc =>
+    if addAmbiguous cfg st.1 x.tx x.v then none
+    else
+      let res := add cfg st.1 x.tx x.v x.pubOk 0
+      addManyT cfg (addT cfg st { x with tie := 0 }) r (acc ++ (if res.2 then "t" else "f"))
+
+/-- one inner operation: `add TX:V:P` | `remove TX` | `applied TX ...` | `reverted TX:V:P ...` -/
+def innerOp (cfg : Cfg) (st : Pool × List Nat) (g : List String) : Inner :=
+  match g with
+  | ["add", x] =>
+    match parseAddArg x with
+    | some x =>
+      match addManyT cfg st [x] "" with
+      | none => .amb
+      | some (st', r) => .ok st' r
+    | none => .bad
+  | ["remove", t] =>
+    match parseTx t with
+    | some t =>
+      let r := remove st.1 t.id
+      .ok (applyOpT cfg st (.remove t.id)) (if r.2 then "t" else "f")
+    | none => .bad
+  | "applied" :: ts =>
+    match ts.mapM parseTx with
+    | some l =>
+      let r := l.foldl (fun (acc : Pool × String) t =>
+        let r := remove acc.1 t.id
+        (r.1, acc.2 ++ (if r.2 then "t" else "f"))) (st.1, "")
+      .ok (applyOpT cfg st (.applied (l.map (·.id)))) (if r.2.isEmpty then "-" else r.2)
+    | none => .bad
+  | "reverted" :: xs =>
+    match xs.mapM parseAddArg with
+    | some l =>
+      match addManyT cfg st l "" with
+      | none => .amb
+      | some (st', r) => .ok st' (if r.isEmpty then "-" else r)
+    | none => .bad
+  | _ => .bad
+
+def innerOps (cfg : Cfg) : Pool × List Nat → List (List String) → List String → Inner
+  | st, [], acc => .ok st (if acc.isEmpty then "-" else String.intercalate "/" acc)
+  | st, g :: r, acc =>
+    match innerOp cfg st g with
+    | .ok st' res => innerOps cfg st' r (acc ++ [res])
+    | .amb => .amb
+    | .bad => .bad
+
+def stepX (d : DSt) (w : List String) : Option (DSt × String) :=
+  match splitBars w with
+  | ("reorgx" :: vs) :: groups =>
+    match parseVerdicts vs with
+    | some l =>
+      let snaps := reorgSnap d.pool
+      match innerOps d.cfg (d.pool, snaps.map (·.sender)) groups [] with
+      | .ok st res =>
+        let p := snaps.foldl (fun q sn => reorgApply Acct.promoteChecked (verdictFn l) (st.2.contains sn.sender) q sn) st.1
+        some (finish d p ("ok:" ++ res))
+      | .amb => some ({ d with dead := true }, "ambiguous")
+      | .bad => some (d, "bad-op")
+    | none => some (d, "bad-op")
+  | ["annx", x] :: groups =>
+    match parseAddArg x with
+    | some x =>
+      match innerOps d.cfg (d.pool, []) groups [] with
+      | .ok st res =>
+        if x.v == Verdict.invalid then some (finish d st.1 ("ok:" ++ res))
+        else
+          match addMany d.cfg st.1 [x] "" with
+          | none => some ({ d with dead := true }, "ambiguous")
+          | some (p, _) => some (finish d p ("ok:" ++ res))
+      | .amb => some ({ d with dead := true }, "ambiguous")
+      | .bad => some (d, "bad-op")
+    | none => some (d, "bad-op")
+  | ["addx", x, _] :: groups =>
+    -- `Add` holds the pool lock from beginning to end: what is started from inside its verifier or publish
+    -- callback takes effect after it
+    match parseAddArg x with
+    | some x =>
+      match addMany d.cfg d.pool [x] "" with
+      | none => some ({ d with dead := true }, "ambiguous")
+      | some (p, r) =>
+        match innerOps d.cfg (p, []) groups [] with
+        | .ok st res => some (finish d st.1 ((if r == "t" then "true" else "false") ++ ":" ++ res))
+        | .amb => some ({ d with dead := true }, "ambiguous")
+        | .bad => some (d, "bad-op")
+    | none => some (d, "bad-op")
+  | _ => none
+
 def step (d : DSt) (w : List String) : DSt × String :=
   let bad := (d, "bad-op")
   match w with
@@ -126,7 +233,10 @@ def step (d : DSt) (w : List String) : DSt × String :=
       | some (p, r) => finish d p (if r.isEmpty then "-" else r)
     | none => bad
   | ["snapshot"] => finish d d.pool "ok"
-  | _ => bad
+  | _ =>
+    match stepX d w with
+    | some r => r
+    | none => bad
 
 def main : IO Unit := Driver.run ({} : DSt) step
 
